@@ -44,7 +44,7 @@ def work(item):
         pass
     res.d["cuts"].append("numpy proxy in wavefunction.py: asarray(dtype=complex) keeps symbolic amplitudes in an object array; abs/sum/isclose exact-real")
     try:
-        {"hist": _w_history, "symmode": _w_symmode, "bits": _w_bits, "dicke": _w_dicke, "flip": _w_flip, "io": _w_io, "len": _w_len}[kind](res, p)
+        {"hist": _w_history, "symmode": _w_symmode, "symprob": _w_symprob, "bits": _w_bits, "dicke": _w_dicke, "flip": _w_flip, "io": _w_io, "len": _w_len}[kind](res, p)
     except ST.Inconclusive as e:
         res.ob(1)
         res.inconc(str(e))
@@ -180,7 +180,71 @@ def symmode_cases():
         ("assign imaginary number keeping a symbol, partial 0.75", lambda W: _assign(W([a, 0.5, 0.5j, b]), 3, 0.5j), "ok"),
         ("bind imaginary partially above 1", lambda W: W([a, b, h, 0]).bind({a: 0.9j}), "raise"),
         ("bind exact constant partially above 1", lambda W: W([a, b, h, h]).bind({a: sympy.sqrt(3) / 2}), "raise"),
+        # histories in which a NEW symbol enters through an assignment and is bound later
+        ("assign a new symbol, then bind it to unnormalised", lambda W: _assign(W([a, h, h, h]), 0, b).bind({b: 2.0}), "raise"),
+        ("assign a new symbol, then bind it to normalised", lambda W: _assign(W([a, h, h, h]), 0, b).bind({b: 0.5}), "ok-normalised"),
+        ("assign a new symbol over a number, bind both", lambda W: _assign(W([a, h, h, h]), 1, b).bind({a: 0.5, b: -0.5}), "ok-normalised"),
+        ("assign a new symbol over a number, bind both to unnormalised", lambda W: _assign(W([a, h, h, h]), 1, b).bind({a: 0.5, b: 0.9}), "raise"),
+        ("assign a new symbol, bind the old one partially above 1", lambda W: _assign(W([a, 0.7, 0.7, 0.0]), 3, b).bind({a: 0.5}), "raise"),
+        ("bind one symbol to another, then bind that", lambda W: W([a, h, h, h]).bind({a: b}).bind({b: 0.5}), "ok-normalised"),
+        ("bind one symbol to another, then bind that to unnormalised", lambda W: W([a, h, h, h]).bind({a: b}).bind({b: 0.75}), "raise"),
     ]
+
+
+SYMPROB_CASES = {
+    "symbols and imaginary numbers": lambda a, b: [a, 0.5j, b, 0.5],
+    "complex combinations of symbols": lambda a, b: [(a + sympy.I * b) / 2, sympy.I * a / 2, (1 - sympy.I) * b / 4, 0.25],
+    "phase factors": lambda a, b: [sympy.exp(sympy.I * a) / 2, sympy.exp(-sympy.I * b) * sympy.I / 2, sympy.cos(a) / 2 + sympy.I * sympy.sin(a) / 2, 0.5],
+    "two amplitudes": lambda a, b: [sympy.I * sympy.sin(a / 2), sympy.cos(a / 2)],
+    "after binding one symbol to an imaginary number": lambda a, b: ("bind", [a, b, 0.5, 0.5], {a: 0.5j}),
+    "after assigning an imaginary number": lambda a, b: ("assign", [a, b, 0.5, 0.25], 3, 0.5j),
+}
+
+
+def _symprob_wf(case):
+    from orquestra.quantum.wavefunction import Wavefunction
+
+    a, b = sympy.Symbol("a"), sympy.Symbol("b")
+    spec = SYMPROB_CASES[case](a, b)
+    if isinstance(spec, tuple) and spec[0] == "bind":
+        return Wavefunction(spec[1]).bind(spec[2])
+    if isinstance(spec, tuple) and spec[0] == "assign":
+        wf = Wavefunction(spec[1])
+        wf[spec[2]] = spec[3]
+        return wf
+    return Wavefunction(spec)
+
+
+def _w_symprob(res, p):
+    """Symbolic mode: get_probabilities() of a wavefunction with free (real) symbols and non-real entries equals |amplitude|^2
+    entry by entry, for ALL values of the symbols (z3 over circle points / reals)."""
+    from ..front import install_numpy_sympy_shim
+    from ..solve import Prover, first_violation
+
+    install_numpy_sympy_shim()
+    wf = _symprob_wf(p["case"])
+    res.nontrivial()
+    amps = list(wf.amplitudes)
+    probs = list(wf.get_probabilities())
+    res.ob(1)
+    if len(probs) != len(amps):
+        res.candidate("probabilities-are-squared-magnitudes", f"{len(probs)} probabilities for {len(amps)} amplitudes", dict(p, clause="probabilities-are-squared-magnitudes", values={}), sub="len")
+        return
+    res.ob(0, 1, "concrete-structure")
+
+    def build(F):
+        A = F.alg
+        out = []
+        for i, (pr, am) in enumerate(zip(probs, amps)):
+            x = F.t(sympy.sympify(am))
+            out.append((f"p[{i}]", A.sub(F.t(sympy.sympify(pr)), A.mul(x, A.conj(x)))))
+        return out
+
+    P = Prover(res, unit=sympy.Rational(1, 2))
+    fv = first_violation(P.prove_zero("symprob", build, "probabilities-are-squared-magnitudes", sub="probabilities-are-squared-magnitudes"))
+    if fv:
+        res.candidate("probabilities-are-squared-magnitudes", f"{p['case']}: get_probabilities(){fv[0]} differs from |amplitude|^2", dict(p, clause="probabilities-are-squared-magnitudes", values=fv[1]), sub="probabilities-are-squared-magnitudes")
+    res.sample({"symbolic-mode probabilities": p["case"], "amplitudes": [str(x) for x in amps]})
 
 
 def _assign(wf, i, v):
@@ -220,6 +284,8 @@ def symmode_bad(f, want):
     if want.startswith("raise"):
         return "accepted although it breaks the invariant"
     if want == "ok-normalised":
+        if list(wf.free_symbols):
+            return f"symbols {list(wf.free_symbols)} are still unbound after binding every symbol"
         tot = float(np.sum(np.abs(np.array(wf.amplitudes, dtype=complex)) ** 2))
         if abs(tot - 1) > 1e-5:
             return f"total probability {tot}"
@@ -419,6 +485,8 @@ def instances(tier, seed):
             hh = [i if n == 2 else (3 if i else 2) for i in h]
             items.append(("hist", {"n": n, "history": hh, "label": f"n={n} history={hh}"}))
     items.append(("symmode", {"label": "symbolic-mode table"}))
+    for case in SYMPROB_CASES:
+        items.append(("symprob", {"case": case, "label": f"symbolic-mode probabilities: {case}"}))
     items.append(("bits", {"limit_bits": 14, "label": "next number with same hamming weight, val < 2^14"}))
     nmax = 10 if tier == "quick" else 12
     for n in range(1, nmax + 1):
@@ -464,6 +532,17 @@ def replay(data):
     vals = inp.get("values") or {}
     p = {k: v for k, v in inp.items() if k not in ("clause", "values")}
     try:
+        if clause == "probabilities-are-squared-magnitudes":
+            from ..front import install_numpy_sympy_shim
+
+            install_numpy_sympy_shim()
+            wf = _symprob_wf(p["case"])
+            sub = {sympy.Symbol(k): float(v) for k, v in vals.items()} or {sympy.Symbol("a"): 0.3, sympy.Symbol("b"): -0.4}
+            sub = {**{sympy.Symbol("a"): 0.3, sympy.Symbol("b"): -0.4}, **sub}
+            worst = 0.0
+            for pr, am in zip(wf.get_probabilities(), wf.amplitudes):
+                worst = max(worst, abs(complex(sympy.sympify(pr).subs(sub).evalf()) - abs(complex(sympy.sympify(am).subs(sub).evalf())) ** 2))
+            return worst > 1e-9, f"max |p - |a|^2| = {worst:.3g} at {sub}"
         if clause == "symbolic-mode":
             for label, f, want in symmode_cases():
                 if label == inp["case"]:
